@@ -424,7 +424,7 @@ def numba_kernels(ctx):
     # lookup by function name and selection tables
     out.append("Definition numba_kernel (name : string) : option kfun :=")
     for fname in done:
-        out.append('  if string_dec name "%s"%%string then Some %s else' % (fname, fname))
+        out.append('  if String.eqb name "%s"%%string then Some %s else' % (fname, fname))
     out.append("  None.")
     out.append("")
     for tab in ("kernel_functions_regular", "kernel_functions_singular"):
@@ -432,6 +432,11 @@ def numba_kernels(ctx):
             tab, ";\n   ".join('("%s"%%string, "%s"%%string)' % kv for kv in tabs[tab].items())))
     out.append("Definition numba_kernel_is_complex : list (string * bool) :=\n  [%s]." % ";\n   ".join(
         '("%s"%%string, %s)' % (k, "true" if v["complex"] else "false") for k, v in res["kernels"].items()))
+    ff = [k for k in res["kernels"] if "far_field" in k]
+    uses = any("p1" in kexpr.free_vars(res["kernels"][k][c]) for k in ff for c in ("re", "im"))
+    res["far_field_kernels_use_imag"] = uses
+    out.append("(* does kernel_parameters[1] (imaginary part of the wavenumber) occur in a far-field kernel? *)")
+    out.append("Definition far_field_kernels_use_imag : bool := %s." % ("true" if uses and ff else "false"))
     out.append("")
     # FMM point kernels
     fpath, ftree, ffuncs = _parse(ctx, FMM_SRC)
@@ -573,7 +578,7 @@ def shapesets_py(ctx):
     out.append("")
     out.append("Definition py_shapeset (name : string) : option (R -> R -> list (list R)) :=")
     for ident in sets:
-        out.append('  if string_dec name "%s"%%string then Some py_%s_evaluate else' % (ident, ident))
+        out.append('  if String.eqb name "%s"%%string then Some py_%s_evaluate else' % (ident, ident))
     out.append("  None.")
     out.append("Definition py_shapeset_names : list string := [%s]." % "; ".join('"%s"%%string' % i for i in sets))
     ctx.write_gen("Shapesets.v", "\n".join(out) + "\n")
